@@ -158,3 +158,77 @@ func (e *Exec) shallowField(what string) bool {
 	}
 	return false
 }
+
+
+// Critical-section obligations (C16/C18): inside an operation (a function
+// listed in Within), every call to one of Calls (the file read, the version
+// check's stat, the file write) must happen while Mutex is held, and all of
+// them in ONE critical section: the mutex is not released between the read
+// that the decision is based on and the write.  A static path finding.
+type Critical struct {
+	Mutex  string   `json:"mutex"`
+	Calls  []string `json:"calls"`
+	Within []string `json:"within"`
+}
+
+func (e *Exec) checkCritical(st *State, callee string) {
+	for _, cs := range e.ob.Critical {
+		hit := false
+		for _, c := range cs.Calls {
+			if c == callee {
+				hit = true
+			}
+		}
+		if !hit {
+			continue
+		}
+		var op *Frame
+		for _, f := range st.frames {
+			if f.fn == nil {
+				continue
+			}
+			fn := f.fn.String()
+			if f.fn.Origin() != nil {
+				fn = f.fn.Origin().String()
+			}
+			for _, w := range cs.Within {
+				if w == fn && op == nil {
+					op = f
+				}
+			}
+		}
+		if op == nil {
+			continue
+		}
+		held := false
+		for k, h := range st.held {
+			if h && st.heldNames[k] == cs.Mutex {
+				held = true
+			}
+		}
+		msg := ""
+		if !held {
+			msg = fmt.Sprintf("%s called by %s without holding %s: the version check and the write are not atomic", callee, op.fn.Name(), cs.Mutex)
+		} else {
+			ep := st.lockEpochs[cs.Mutex]
+			if op.critEpoch == 0 {
+				op.critEpoch = ep
+			} else if op.critEpoch != ep {
+				msg = fmt.Sprintf("critical section split in %s: %s was released and re-acquired between the read of the definition and %s", op.fn.Name(), cs.Mutex, callee)
+			}
+		}
+		if msg == "" {
+			e.res.CritChecks++
+			continue
+		}
+		dup := false
+		for _, o := range e.res.Failures {
+			if o.Kind == "race" && o.Msg == msg {
+				dup = true
+			}
+		}
+		if !dup {
+			e.res.fail(Failure{Kind: "race", Msg: msg, Pos: e.posStr(), Model: e.pathModel(st), Choices: append([]int(nil), st.choices...), Stack: e.stackStrs(st)})
+		}
+	}
+}
